@@ -4,6 +4,7 @@ Everything here is part of the trusted base (DESIGN.md 2.3) and is exercised by
 the CPython cross-check on every run.
 """
 import ast
+import os
 import binascii
 import hashlib
 import hmac
@@ -302,6 +303,16 @@ def _bitop(ip, op, a, b):
                 return a
             if _pow2(m):
                 return SV(x + z3.If((x / m) % 2 == 0, m, -m), 'int')
+    if okb and isinstance(bv, int) and not isinstance(bv, bool) and bv < 0 and bin(~bv).count('1') <= 40:
+        # negative literal mask m (infinitely many leading ones): its complement c = ~m is a non-negative literal, and
+        # in two's complement  x == (x & m) + (x & c),  x | m == m + (x & c),  x ^ m == -(x ^ c) - 1
+        c_ = ~bv
+        and_c = I(_bitop(ip, ast.BitAnd, a, c_)) if c_ else z3.IntVal(0)
+        if op is ast.BitAnd:
+            return SV(simp(x - and_c), 'int')
+        if op is ast.BitOr:
+            return SV(simp(bv + and_c), 'int')
+        return SV(simp(-(x + c_ - 2 * and_c) - 1), 'int')
     if okb and isinstance(bv, int) and bv >= 0 and bin(bv).count('1') <= 40:
         # constant mask: x & m is the sum of the selected bits (floor div/mod = two's complement for negatives too)
         m = bv
@@ -344,6 +355,10 @@ def _bitop(ip, op, a, b):
         return SV(z3.BV2Int(r, False), 'int')
     bo = ip.reg.get_spec({ast.BitAnd: 'bit_and', ast.BitOr: 'bit_or', ast.BitXor: 'bit_xor'}[op], optional=True)
     if bo is not None:
+        if os.environ.get('PYVC_NOTE_BITOPS'):     # development aid: where a bit operation stays uninterpreted
+            import sys
+            fr_ = ip.frames[-1] if ip.frames else None
+            print("NOTE-BITOP %s in %s (top %s)" % (op.__name__, getattr(fr_, 'qual', '?'), getattr(ip, 'top_unit', '?')), file=sys.stderr, flush=True)
         return call_spec(ip, bo, [a, b], {})
     raise Unsupported("general bit operation %s" % op.__name__)
 
